@@ -24,6 +24,7 @@ type opFacts struct {
 	Abstract          bool // a field of interface/union type (other than node) is selected
 	VarDefault        bool // a variable declares a default value
 	VarNamedID        bool // a client variable is called `id`, like the executor's own $id of child steps
+	DirectiveOnHelper bool // a client-selected field named id/__typename carries a directive (@skip/@include)
 }
 
 func analyseOp(schema *ast.Schema, doc *ast.QueryDocument, op *ast.OperationDefinition) opFacts {
@@ -90,6 +91,9 @@ func analyseOp(schema *ast.Schema, doc *ast.QueryDocument, op *ast.OperationDefi
 			switch s := s.(type) {
 			case *ast.Field:
 				dirs(s.Directives)
+				if (s.Name == "id" || s.Name == "__typename") && len(s.Directives) > 0 {
+					f.DirectiveOnHelper = true
+				}
 				if root && s.Name == "__typename" {
 					f.RootTypename = true
 				}
@@ -226,6 +230,7 @@ type c01ClassDef struct {
 }
 
 var c01Classes = []c01ClassDef{
+	{"skipped-helper-id", func(o opFacts, d dataFacts, sh bool) bool { return o.DirectiveOnHelper }, []string{"error/missing-id", "wrong-data"}},
 	{"directive-on-flattened-selection", func(o opFacts, d dataFacts, sh bool) bool { return o.Directive }, []string{"wrong-data"}},
 	{"root-typename", func(o opFacts, d dataFacts, sh bool) bool { return o.RootTypename }, []string{"error/internal-service-url"}},
 	{"aliased-helper", func(o opFacts, d dataFacts, sh bool) bool { return o.AliasedHelper }, []string{"error/missing-id", "invalid-subrequest/field-conflict", "wrong-data"}},
